@@ -1,6 +1,6 @@
 (* Driver.v — single entry point of the executable model: one case line in, one result line out.
    Used identically by the extracted OCaml driver and by [Eval vm_compute]. *)
-From MPD Require Import Bytes Tables Show TagModel TagSpec DriverCmd DriverConn DriverFrame DriverLoop.
+From MPD Require Import Bytes Tables Show TagModel TagSpec DriverCmd DriverConn DriverFrame DriverLoop DriverRefine.
 From MPD Require Import Bytes Tables Show TagModel TagSpec DriverCmd DriverConn DriverFrame DriverSong.
 From MPD Require Import Bytes Tables Show TagModel TagSpec DriverCmd DriverConn DriverFrame DriverCommands.
 From MPD Require Import Bytes Tables Show TagModel TagSpec DriverCmd DriverConn DriverFrame DriverFilter.
@@ -109,6 +109,7 @@ Definition dispatch (line : bytes) : bytes :=
     else if is_conn_kind kind then run_conn kind args
     else if is_frame_kind kind then run_frame kind args
     else if is_loop_kind kind then run_loop_kind kind args
+    else if is_refine_kind kind then run_refine_kind kind args
     else if is_song_kind kind then run_songs kind args
     else if is_commands_kind kind then run_commands kind args
     else if is_filter_kind kind then run_filter kind args
